@@ -11,7 +11,7 @@ LEVEL = "translation_validation"
 ITEM_CAP = {"quick": 60, "thorough": 120}
 FUNCS = ["qlasskit.qlassfun.qlassf -> UnboundQlassf", "qlasskit.qlassfun.UnboundQlassf.bind", "qlasskit.qlassfun.is_parameter_annotation",
          "qlasskit.ast2ast.astrewriter.ASTRewriter.visit_Assign / constantfolder.ConstantFolder (propagation of the injected assignments)"]
-BOUNDS = "29 parameterised programs (bool, Qint[2..4], Qlist, Tuple parameters; 1-3 parameters; first/last/interleaved) x ALL parameter values of the declared types x keyword orders x bind histories {v; v,v',v} on one unbound object; remaining arguments symbolic; both optimizer profiles"
+BOUNDS = "37 parameterised programs (bool, Qint[2..4], Qlist, Tuple parameters; 1-3 parameters; first/last/interleaved) x ALL parameter values of the declared types x keyword orders x bind histories {v; v,v',v} on one unbound object; remaining arguments symbolic; both optimizer profiles"
 OUTSIDE = "program texts enumerated; parameter values enumerated exhaustively (they are compile-time python values, not solver variables)"
 ASSUMPTIONS = ["reference meaning of a bound function = RefSem of the unbound source with the parameters replaced by constant assignments",
                "'unbound object unchanged' is a frame condition: ast.dump(fun_ast), parameters dict compared before/after each bind"]
@@ -47,6 +47,15 @@ PROGS = [
     ("def prog(t: Parameter[Qlist[Qint[2], 4]], ii: Tuple[Qint[2], Qint[2]]) -> Qint[4]:\n    return t[ii[0]] + t[ii[1]]\n", {"t": "tab4"}),
     ("def prog(t: Parameter[Qlist[bool, 4]], i: Qint[2]) -> bool:\n    return t[i]\n", {"t": "tabb4"}),
     ("def prog(lo: Parameter[Qint[2]], hi: Parameter[Qint[2]], a: Qint[2]) -> bool:\n    return a >= lo and a < hi\n", {"lo": "i2", "hi": "i2"}),
+    # a table parameter re-bound to another table (under a condition / unconditionally), then indexed
+    ("def prog(t0: Parameter[Qlist[Qint[2], 4]], t1: Parameter[Qlist[Qint[2], 4]], a: Qint[2], b: bool) -> Qint[2]:\n    if b:\n        t0 = t1\n    return t0[a]\n", {"t0": "tab4s", "t1": "tab4s"}),
+    ("def prog(t0: Parameter[Qlist[Qint[2], 4]], t1: Parameter[Qlist[Qint[2], 4]], a: Qint[2]) -> Qint[2]:\n    u = t0\n    t0 = t1\n    return t0[a] + u[a]\n", {"t0": "tab4s", "t1": "tab4s"}),
+    ("def prog(c: Parameter[Qlist[Qint[2], 3]], d: Parameter[Qlist[Qint[2], 3]], a: Qint[2]) -> Qint[4]:\n    c = d\n    s = a\n    for x in c:\n        s += x\n    return s\n", {"c": "li3s", "d": "li3s"}),
+    ("def prog(c: Parameter[Qlist[Qint[2], 3]], d: Parameter[Qlist[Qint[2], 3]], a: Qint[2]) -> Qint[4]:\n    c = d\n    return sum(c) + a\n", {"c": "li3s", "d": "li3s"}),
+    ("def prog(c: Parameter[Qmatrix[Qint[2], 2, 3]], a: Qint[2]) -> Qint[4]:\n    return len(c[0]) + sum(c[1]) + a\n", {"c": "tab23"}),
+    ("def prog(c: Parameter[Qmatrix[bool, 1, 4]], a: bool) -> bool:\n    return all(c[0]) or (any(c[0]) and a)\n", {"c": "tab14"}),
+    ("def prog(k: Parameter[Qint[4]], a: Qint[4]) -> Qint[4]:\n    return a ^ k\n", {"k": "i4"}),
+    ("def prog(k: Parameter[Qint[3]], a: Qint[3]) -> bool:\n    return a == k\n", {"k": "i3"}),
 ]
 DOM = {
     "b": [False, True],
@@ -59,6 +68,9 @@ DOM = {
     "tab23": [[[0, 1, 2], [3, 2, 1]], [[1, 1, 0], [0, 3, 3]], [[3, 0, 1], [2, 2, 0]]],
     "tab32": [[[0, 1], [2, 3], [1, 0]], [[3, 3], [0, 1], [2, 0]]],
     "tab22": [[[0, 1], [2, 3]], [[3, 1], [1, 0]]],
+    "tab4s": [[1, 2, 3, 0], [3, 3, 0, 1], [0, 0, 2, 2]],
+    "i3": list(range(8)),
+    "li3s": [[1, 1, 1], [2, 0, 3], [0, 3, 3]],
     "tab4": [[0, 1, 1, 2], [3, 3, 1, 1], [2, 2, 2, 0], [1, 2, 3, 0], [0, 0, 0, 0], [1, 0, 0, 1]],
     "tabb4": [[True, False, False, True], [False, True, True, True], [False, False, False, False], [True, True, False, False]],
     "tab14": [[[True, False, False, True]], [[False, True, True, False]], [[True, True, False, False]]],
@@ -81,6 +93,11 @@ def universe():
                 v2 = vals[(i * 7 + 3) % len(vals)]
                 if i % 3 == 0 and len(vals) > 1:
                     out.append({"fam": "param-history", "src": src, "hist": [v, v2, v], "korder": "fwd", "opt": opt})
+                # the same unbound object bound again with the keywords permuted and the same value
+                # sequence: bind(c=x, d=y) then bind(d=x, c=y)
+                if len(names) == 2 and params[names[0]] == params[names[1]] and v[names[0]] != v[names[1]]:
+                    sw = {names[0]: v[names[1]], names[1]: v[names[0]]}
+                    out.append({"fam": "param-history", "src": src, "hist": [v, sw, v], "korder": "fwd", "korders": ["fwd", "rev", "fwd"], "opt": opt})
     return out
 
 
@@ -117,7 +134,7 @@ def check_item(spec):
     judged = 0
     for step, v in enumerate(spec["hist"]):
         kw = {k: pyval(x) for k, x in v.items()}
-        if spec["korder"] == "rev":
+        if spec.get("korders", [spec["korder"]] * (step + 1))[step] == "rev":
             kw = dict(reversed(list(kw.items())))
         try:
             qf = u.bind(**kw)
